@@ -119,6 +119,16 @@ func cmdDiff(args []string) {
 		return
 	}
 	for id := *from; id < *to; id++ {
+		if f, ok := faultOracles[*mode]; ok {
+			rw.put(CaseResult{Kind: "start", ID: id, Query: *mode})
+			res := f(*seed, id)
+			res.Kind, res.ID, res.Mode = "done", id, *mode
+			if res.Steps == 0 {
+				res.Steps = len(res.Window.Grid())
+			}
+			rw.put(res)
+			continue
+		}
 		c := genCase(*seed, id, o)
 		if *qOverride != "" {
 			c.Query = *qOverride
@@ -196,3 +206,14 @@ func errGroup(c string) string {
 }
 
 var _ = strings.Contains
+
+var faultOracles = map[string]func(seed int64, id int) CaseResult{
+	"panic":        func(s int64, i int) CaseResult { return oracleFault(s, i, "panic") },
+	"storerr":      func(s int64, i int) CaseResult { return oracleFault(s, i, "storerr") },
+	"lifecycle":    func(s int64, i int) CaseResult { return oracleFault(s, i, "lifecycle") },
+	"extreme":      oracleExtreme,
+	"cancel":       oracleCancel,
+	"cancelstress": oracleCancelStress,
+	"conc":         oracleConc,
+	"hist":         oracleHist,
+}
